@@ -46,8 +46,8 @@ CHECKS = {
         "design_ref": "DESIGN.md §7 C05",
     },
     "C06": {
-        "scenarios": [{"name": "dups"}, {"name": "bank"}],
-        "accept": ["dups:", "holding:passed-over", "history-replay:balances-differ:bank-"],
+        "scenarios": [{"name": "dups"}, {"name": "bank"}, {"name": "ledger"}],
+        "accept": ["dups:", "holding:passed-over", "history-replay:balances-differ:bank-", "conversion:executed-without-rates"],
         "technique": "Lean: execution marks the entry hash, the mark is permanent over every chain (relation rows only grow: invariant lifted through the whole block), marked or already-recorded entries are skipped, holding window visits strictly earlier heights; block-level 'at least once': every batch held in the window of a rated block gets a status / replay mark / dropped in that block (history variable statusLog, lifted through the whole block transaction). Tie: repetition patterns synced with and without the duplicates, lock-step with the model",
         "assumptions": [ORACLES],
         "design_ref": "DESIGN.md §7 C06",
